@@ -16,8 +16,8 @@ FUNCS = ['taurex.optimizer.optimizer:Optimizer.enable_fit', 'taurex.optimizer.op
          'taurex.optimizer.optimizer:Optimizer.update_model', 'taurex.optimizer.optimizer:Optimizer.fit_names',
          'taurex.optimizer.optimizer:Optimizer.fit_values', 'taurex.optimizer.optimizer:Optimizer.fit_boundaries',
          'taurex.optimizer.optimizer:Optimizer.derived_names', 'taurex.data.fittable:Fittable.add_fittable_param']
-STUBS = ['forward model / observation -> doubles built with the real Fittable machinery (3 model parameters a:linear fitted by '
-         'default, b:log, c:linear; 1 observation parameter; 1 model derived parameter)', 'operation kinds and targets -> symbolic '
+STUBS = ['forward model / observation -> doubles built with the real Fittable machinery (3 model parameters a:linear and c:linear fitted by '
+         'default, b:log; 1 observation parameter; 1 model derived parameter)', 'operation kinds and targets -> symbolic '
          'integer selectors concretised by forking; every numeric argument symbolic', 'scipy ppf -> contract stubs; log10/exp10 UF']
 
 OPS = ['enable_fit', 'disable_fit', 'set_mode_log', 'set_mode_linear', 'set_boundary', 'set_factor_boundary',
@@ -53,7 +53,7 @@ class _Oracle(object):
     """what the CURRENT settings imply (no history): tuples of (mode, fit, bounds), user priors, derived flags"""
     def __init__(self, values, bounds):
         self.mode = dict(a='linear', b='log', c='linear', obs_scale='linear')
-        self.fit = dict(a=True, b=False, c=False, obs_scale=False)
+        self.fit = dict(a=True, b=False, c=True, obs_scale=False)
         self.bounds = dict(bounds)
         self.prior = {}
         self.derived = dict(psum=False)
@@ -80,7 +80,7 @@ def history(ctx, k, restrict=False):
     bnd = {p: [ctx.real('bound_lo_%s' % p, gt=0, hint=(0.1, 1)), ctx.real('bound_hi_%s' % p, gt=0, hint=(2, 9))] for p in PARAMS}
     for p in PARAMS:
         ctx.assume(bnd[p][0] < bnd[p][1])
-    model = make_model(coef, np.zeros(nn), bounds=[bnd['a'], bnd['b'], bnd['c']])
+    model = make_model(coef, np.zeros(nn), bounds=[bnd['a'], bnd['b'], bnd['c']], fits=(True, False, True))
     vals = dict(a=ctx.real('val_a', gt=0, hint=(0.5, 5)), b=ctx.real('val_b', gt=0, hint=(0.5, 5)),
                 c=ctx.real('val_c', gt=0, hint=(0.5, 5)), obs_scale=ctx.real('val_obs', gt=0, hint=(0.5, 5)))
     model.p = [vals['a'], vals['b'], vals['c']]
